@@ -1,6 +1,6 @@
 (* C09 -- property theorems only: statement + exact + Print Assumptions. *)
 From Coq Require Import List ZArith.
-From LJT Require Import model.Suspend model.SuspendMarker model.SuspendHuff model.SuspendEnc
+From LJT Require Import model.SuspendCore model.SuspendMarker model.SuspendHuff model.SuspendEnc
   proofs.SuspendProofs proofs.SuspendWriteProofs proofs.SuspendMarkerProofs proofs.SuspendTheorems
   proofs.SuspendHuffProofs proofs.SuspendScanTheorems proofs.SuspendEncProofs
   model.SuspendBuf proofs.SuspendBufProofs model.SuspendLatch proofs.SuspendLatchProofs gen.GenSuspend.
